@@ -82,7 +82,18 @@ Definition unparse (p : purl) : str :=
   let u := if nonempty (u_scheme p) then u_scheme p ++ s ":" ++ u else u in
   if nonempty (u_query p) then u ++ s "?" ++ u_query p else u.
 
-Definition mk_url (p : purl) : url := {| raw := unparse p; parsed := Some p |}.
+(* what urlparse makes of (unparse p): a path that follows a netloc gets its leading '/' *)
+Definition norm_purl (p : purl) : purl :=
+  let u := u_path p in
+  if (nonempty (u_netloc p)
+      || (nonempty (u_scheme p) && mem_str (u_scheme p) uses_netloc && negb (starts (s "//") u)))
+     && nonempty u && negb (starts (s "/") u)
+  then {| u_scheme := u_scheme p; u_netloc := u_netloc p; u_path := slash :: u; u_query := u_query p |}
+  else p.
+
+(* the joined URL as a string, with the record urlparse gives for that string (trusted: urlparse/urlunparse
+   round trip on joined URLs, checked by the harness on every joined URL) *)
+Definition mk_url (p : purl) : url := {| raw := unparse p; parsed := Some (norm_purl p) |}.
 
 Definition join_parsed (pa pb0 : purl) (b : url) : url :=
   let pb := if nonempty (u_scheme pb0) then pb0
@@ -393,7 +404,7 @@ Fixpoint resolve_rule (r : rrule) (tg : list frule) : option (list frule) :=
   | RImport h media found _ rules =>
       if negb found then Some (add (FImport h media) tg)
       else
-        let tg1 := add (FComment (s "/* START @import """ ++ h ++ s """ */")) tg in
+        let tg1 := add (FComment (s " START @import """ ++ h ++ s """ ")) tg in
         let inner := (fix go (l : list rrule) (acc : list frule) : option (list frule) :=
                         match l with
                         | [] => Some acc
